@@ -222,6 +222,105 @@ fn scenarios() -> Vec<Scenario> {
             },
         },
         Scenario {
+            name: "sub||stale-purge(both shards)||re-announce",
+            build: |px| {
+                let (tables, slot) = base(px);
+                // peer 2 has a route on each shard, its session ended with GR: both are stale
+                let b_old = src(2);
+                tables.insert_route(b_old.clone(), Family::IPV4, packet::PathNlri::new(v4net(px.0[1])), nh(), attrs(1), None, 0);
+                tables.unregister_peer(b_old.remote_addr, &[], &[Family::IPV4]);
+                let b_new = src(2);
+                let q0 = px.1[0];
+                let t1 = tables.clone();
+                let addr = b_old.remote_addr;
+                let w1: Box<dyn FnOnce() + Send> = Box::new(move || {
+                    // End-of-RIB of the new session: sweep what was not refreshed
+                    t1.drop_stale_families(addr, &[Family::IPV4]);
+                });
+                let t2 = tables.clone();
+                let w2: Box<dyn FnOnce() + Send> = Box::new(move || {
+                    // the new session refreshes one of the two routes
+                    t2.insert_route(b_new.clone(), Family::IPV4, packet::PathNlri::new(v4net(q0)), nh(), attrs(2), None, 0);
+                });
+                let s = subscriber(&tables, &slot);
+                (tables, vec![s, w1, w2], slot)
+            },
+        },
+        Scenario {
+            name: "sub||restart-timer drop_families(both shards)",
+            build: |px| {
+                let (tables, slot) = base(px);
+                let b_old = src(2);
+                tables.insert_route(b_old.clone(), Family::IPV4, packet::PathNlri::new(v4net(px.0[1])), nh(), attrs(1), None, 0);
+                tables.unregister_peer(b_old.remote_addr, &[], &[Family::IPV4]);
+                let t1 = tables.clone();
+                let addr = b_old.remote_addr;
+                let w1: Box<dyn FnOnce() + Send> = Box::new(move || {
+                    t1.drop_families(addr, &[Family::IPV4]);
+                });
+                let s = subscriber(&tables, &slot);
+                (tables, vec![s, w1], slot)
+            },
+        },
+        Scenario {
+            name: "sub||llgr-start+llgr-purge(both shards)",
+            build: |px| {
+                let (tables, slot) = base(px);
+                let b_old = src(2);
+                tables.insert_route(b_old.clone(), Family::IPV4, packet::PathNlri::new(v4net(px.0[1])), nh(), attrs(1), None, 0);
+                tables.unregister_peer(b_old.remote_addr, &[], &[Family::IPV4]);
+                let t1 = tables.clone();
+                let addr = b_old.remote_addr;
+                let w1: Box<dyn FnOnce() + Send> = Box::new(move || {
+                    t1.mark_llgr_stale(addr, &[Family::IPV4]);
+                    t1.drop_llgr_stale_families(addr, &[Family::IPV4]);
+                });
+                let s = subscriber(&tables, &slot);
+                (tables, vec![s, w1], slot)
+            },
+        },
+        Scenario {
+            name: "sub||soft_reset_in(policy changed)||insert(same peer, other shard)",
+            build: |px| {
+                let (tables, slot) = base(px);
+                tables.import_policy.store(Some(reject_all_import()));
+                let t = tables.clone();
+                let a = src(1);
+                let addr = a.remote_addr;
+                let w1: Box<dyn FnOnce() + Send> = Box::new(move || {
+                    t.soft_reset_in(addr);
+                });
+                let t2 = tables.clone();
+                let q1 = px.1[1];
+                let w2: Box<dyn FnOnce() + Send> = Box::new(move || {
+                    t2.insert_route(a.clone(), Family::IPV4, packet::PathNlri::new(v4net(q1)), nh(), attrs(4), None, 0);
+                });
+                let s = subscriber(&tables, &slot);
+                (tables, vec![s, w1, w2], slot)
+            },
+        },
+        Scenario {
+            name: "sub||sub2+unsubscribe2||insert(shard0)+insert(shard1)",
+            build: |px| {
+                let (tables, slot) = base(px);
+                let a = src(1);
+                let (p1, q1) = (px.0[1], px.1[1]);
+                let t1 = tables.clone();
+                let w1: Box<dyn FnOnce() + Send> = Box::new(move || {
+                    t1.insert_route(a.clone(), Family::IPV4, packet::PathNlri::new(v4net(p1)), nh(), attrs(2), None, 0);
+                    t1.insert_route(a.clone(), Family::IPV4, packet::PathNlri::new(v4net(q1)), nh(), attrs(2), None, 0);
+                });
+                // a second subscriber comes and goes: the copy-on-write list is rewritten twice
+                let t2 = tables.clone();
+                let w2: Box<dyn FnOnce() + Send> = Box::new(move || {
+                    let s2 = t2.subscribe(false);
+                    t2.unsubscribe(s2.id);
+                });
+                let s = subscriber(&tables, &slot);
+                (tables, vec![s, w1, w2], slot)
+            },
+        },
+        Scenario {
             name: "sub||replace(shard0)||remove(shard1)",
             build: |px| {
                 let (tables, slot) = base(px);
@@ -290,6 +389,18 @@ enum SOp {
     Insert { peer: u8, pfx: u8, attr: u32 },
     Remove { peer: u8, pfx: u8 },
     PeerDrop,
+    /// session of B ends with GR helper mode: routes kept as stale, PeerDown reported
+    GrDown,
+    /// B's session comes back (new Source); stale routes stay until the purge
+    Reconnect,
+    /// End-of-RIB from B / restart timer with LLGR taking over other families: drop_stale_families
+    PurgeStale,
+    /// restart timer expired while B is still away: drop_families
+    TimerDrop,
+    /// LLGR period begins for B while it is away: mark_llgr_stale
+    LlgrStart,
+    /// LLGR timer expired / EOR after LLGR: drop_llgr_stale_families
+    LlgrPurge,
     PolicyToggle,
     SoftResetIn,
     StartDeferral,
@@ -312,6 +423,12 @@ struct SeqSys {
     deferring: bool,
     ever_deferred: bool,
     b_gen: u8,
+    /// B's session is established
+    b_up: bool,
+    /// B's routes were marked stale (GR) and not yet purged
+    b_stale: bool,
+    /// B's remaining routes are in the LLGR stale period
+    b_llgr: bool,
     srcs: [Arc<table::Source>; 2],
     broken: BTreeSet<String>,
 }
@@ -332,20 +449,26 @@ impl crate::verif::vx::bfs::Model for SeqModel {
         }
     }
     fn init(&self) -> SeqSys {
-        SeqSys { tables: Arc::new(TableManager::new(2)), sub: None, pre: BTreeMap::new(), post: BTreeMap::new(), policy_on: false, deferring: false, ever_deferred: false, b_gen: 0, srcs: [src(1), src(2)], broken: BTreeSet::new() }
+        SeqSys { tables: Arc::new(TableManager::new(2)), sub: None, pre: BTreeMap::new(), post: BTreeMap::new(), policy_on: false, deferring: false, ever_deferred: false, b_gen: 0, b_up: true, b_stale: false, b_llgr: false, srcs: [src(1), src(2)], broken: BTreeSet::new() }
     }
     fn step(&self, sys: &mut SeqSys, op: usize, out: &mut Vec<(String, String)>) -> bool {
         let netk = |pfx: u8| if pfx == 0 { self.px.0[0] } else { self.px.1[0] };
         let name = self.op_name(op);
         match &self.ops[op] {
             SOp::Insert { peer, pfx, attr } => {
+                if *peer == 1 && !sys.b_up {
+                    return false;
+                }
                 sys.tables.insert_route(sys.srcs[*peer as usize].clone(), Family::IPV4, packet::PathNlri::new(v4net(netk(*pfx))), nh(), attrs(*attr), None, 0);
             }
             SOp::Remove { peer, pfx } => {
+                if *peer == 1 && !sys.b_up {
+                    return false;
+                }
                 sys.tables.remove_route(sys.srcs[*peer as usize].clone(), Family::IPV4, packet::PathNlri::new(v4net(netk(*pfx))), None, 0);
             }
             SOp::PeerDrop => {
-                if sys.b_gen >= 2 {
+                if sys.b_gen >= 2 || !sys.b_up || sys.b_stale || sys.b_llgr {
                     return false;
                 }
                 let b = sys.srcs[1].clone();
@@ -353,6 +476,54 @@ impl crate::verif::vx::bfs::Model for SeqModel {
                 sys.tables.peer_down(PeerDownData { peer_addr: b.remote_addr, peer_asn: b.remote_asn, peer_id: b.router_id, uptime: 0, reason: rustybgp_packet::bmp::PeerDownReason::RemoteUnexpected });
                 sys.b_gen += 1;
                 sys.srcs[1] = src(2);
+            }
+            SOp::GrDown => {
+                if sys.b_gen >= 2 || !sys.b_up || sys.b_stale || sys.b_llgr {
+                    return false;
+                }
+                let b = sys.srcs[1].clone();
+                // what session_loop does when the session ends and GR helper mode starts
+                sys.tables.unregister_peer(b.remote_addr, &[], &[Family::IPV4]);
+                sys.tables.peer_down(PeerDownData { peer_addr: b.remote_addr, peer_asn: b.remote_asn, peer_id: b.router_id, uptime: 0, reason: rustybgp_packet::bmp::PeerDownReason::RemoteUnexpected });
+                sys.b_gen += 1;
+                sys.b_up = false;
+                sys.b_stale = true;
+            }
+            SOp::Reconnect => {
+                if sys.b_up {
+                    return false;
+                }
+                sys.srcs[1] = src(2);
+                sys.b_up = true;
+            }
+            SOp::PurgeStale => {
+                if !sys.b_stale {
+                    return false;
+                }
+                sys.tables.drop_stale_families(sys.srcs[1].remote_addr, &[Family::IPV4]);
+                sys.b_stale = false;
+            }
+            SOp::TimerDrop => {
+                if !(sys.b_stale && !sys.b_up) {
+                    return false;
+                }
+                sys.tables.drop_families(sys.srcs[1].remote_addr, &[Family::IPV4]);
+                sys.b_stale = false;
+            }
+            SOp::LlgrStart => {
+                if !(sys.b_stale && !sys.b_up) {
+                    return false;
+                }
+                sys.tables.mark_llgr_stale(sys.srcs[1].remote_addr, &[Family::IPV4]);
+                sys.b_stale = false;
+                sys.b_llgr = true;
+            }
+            SOp::LlgrPurge => {
+                if !sys.b_llgr {
+                    return false;
+                }
+                sys.tables.drop_llgr_stale_families(sys.srcs[1].remote_addr, &[Family::IPV4]);
+                sys.b_llgr = false;
             }
             SOp::PolicyToggle => {
                 sys.policy_on = !sys.policy_on;
@@ -392,12 +563,24 @@ impl crate::verif::vx::bfs::Model for SeqModel {
         let mut cur = Vec::new();
         if let Some(sub) = sys.sub.as_mut() {
             let f = fold_into(&mut sub.rx, &mut sys.pre, &mut sys.post);
-            let (pre, post) = rib(&sys.tables);
+            let (mut pre, mut post) = rib(&sys.tables);
+            let (mut vpre, mut vpost) = (sys.pre.clone(), sys.post.clone());
+            if sys.b_stale || sys.b_llgr {
+                // While B's routes are retained as stale the statement does not say whether a
+                // subscriber that was told PeerDown should still list them: B's entries are
+                // compared again once the stale routes have been purged and B is back.
+                let b = sys.srcs[1].remote_addr;
+                for m in [&mut pre, &mut post, &mut vpre, &mut vpost] {
+                    m.retain(|k, _| k.0 != b);
+                }
+            }
             let kind = name.split('(').next().unwrap_or("").to_string();
-            if pre != sys.pre {
+            let sys_pre = &vpre;
+            let sys_post = &vpost;
+            if pre != *sys_pre {
                 cur.push((format!("C18/seq/adj-rib-in-pre/{kind}"), format!("after {name}: the subscriber's pre-policy view {:?} differs from the RIB's {:?}; events of this step: {}", sys.pre.keys().collect::<Vec<_>>(), pre.keys().collect::<Vec<_>>(), f.join(","))));
             }
-            if post != sys.post {
+            if post != *sys_post {
                 cur.push((format!("C18/seq/adj-rib-in-post/{kind}"), format!("after {name}: the subscriber's post-policy view {:?} differs from the RIB's {:?}; events of this step: {}", sys.post.keys().collect::<Vec<_>>(), post.keys().collect::<Vec<_>>(), f.join(","))));
             }
         }
@@ -415,8 +598,21 @@ impl crate::verif::vx::bfs::Model for SeqModel {
     fn fingerprint(&self, sys: &SeqSys) -> Vec<u8> {
         let (pre, post) = rib(&sys.tables);
         let filtered: Vec<String> = sys.tables.collect_paths(table::TableQuery::Global, Family::IPV4, vec![], true).iter().map(|d| format!("{}:{:?}", d.net, d.paths.iter().map(|p| (p.source.remote_addr, p.filtered)).collect::<Vec<_>>())).collect();
-        format!("{:?}|{:?}|{:?}|{}|{:?}|{:?}|{}|{}|{}|{}|{:?}", pre, post, filtered, sys.sub.is_some(), sys.pre, sys.post, sys.policy_on, sys.deferring, sys.ever_deferred, sys.b_gen, sys.broken).into_bytes()
+        format!("{:?}|{:?}|{:?}|{}|{:?}|{:?}|{}|{}|{}|{:?}|{:?}", pre, post, filtered, sys.sub.is_some(), sys.pre, sys.post, sys.policy_on, sys.deferring, sys.ever_deferred, (sys.b_gen, sys.b_up, sys.b_stale, sys.b_llgr, stale_fp(&sys.tables)), sys.broken).into_bytes()
     }
+}
+
+/// which (peer, prefix) paths are GR-stale / LLGR-stale (behaviour-relevant: purges act on them)
+fn stale_fp(tables: &TableManager) -> Vec<String> {
+    let mut v = Vec::new();
+    for shard in &tables.shards {
+        let t = shard.lock().unwrap();
+        for r in t.rtable.iter_reach(Family::IPV4) {
+            v.push(format!("{}:{}:{}:{}", r.source.remote_addr, r.net.nlri, r.source.is_stale(), r.source.is_llgr_stale()));
+        }
+    }
+    v.sort();
+    v
 }
 
 /// fold the events currently queued into persistent views; returns a trace of this batch
@@ -475,6 +671,7 @@ fn seq_model(px: &(Vec<u8>, Vec<u8>)) -> SeqModel {
         }
     }
     ops.push(SOp::Insert { peer: 0, pfx: 0, attr: 2 });
+    ops.extend([SOp::GrDown, SOp::Reconnect, SOp::PurgeStale, SOp::TimerDrop, SOp::LlgrStart, SOp::LlgrPurge]);
     ops.extend([SOp::PeerDrop, SOp::PolicyToggle, SOp::SoftResetIn, SOp::StartDeferral, SOp::EndDeferral, SOp::Subscribe, SOp::Unsubscribe]);
     SeqModel { ops, px: px.clone() }
 }
@@ -519,103 +716,78 @@ pub(crate) fn run(replay: Option<&str>) -> Report {
         return rep;
     }
     let thorough = rep.thorough();
-    let bound = if thorough { 3 } else { 2 };
-    let cap: u64 = if thorough { 400_000 } else { 20_000 };
-    rep.rule = format!("stateless exploration of ALL schedules with <= {bound} preemptions (iterative bounding 0..{bound}) of real OS threads running real TableManager methods under a baton scheduler; scheduling points = hooks before every shard lock and around every subscribers.load()/rcu(); 4 scenarios (subscribe(snapshot) vs insert/remove/replace on same and other shard, peer drop + PeerDown, soft_reset_in under a changed import policy); oracle after every execution: fold(snapshot + live events) == Adj-RIB-In pre/post policy of all shards; non-trivial = distinct delivered event sequence");
+    let bound = if thorough { 64 } else { 3 };
+    let cap: u64 = if thorough { 3_000_000 } else { 60_000 };
+    rep.rule = format!("stateless exploration of ALL schedules with <= {bound} preemptions (iterative bounding 0..{bound}) of real OS threads running real TableManager methods under a baton scheduler; scheduling points = hooks before every shard lock and around every subscribers.load()/rcu(); {} scenarios (subscribe(snapshot) vs insert/remove/replace on same and other shard, peer drop + PeerDown, soft_reset_in under a changed import policy alone and against an insert, GR stale purge against a re-announcement, restart-timer drop, LLGR start + purge, a second subscriber coming and going); oracle after every execution: fold(snapshot + live events) == Adj-RIB-In pre/post policy of all shards; non-trivial = distinct delivered event sequence", scs.len());
     rep.notes.push("assume: std::sync::Mutex, arc-swap and tokio unbounded channels are linearizable at hook granularity; weak-memory effects are not explored".into());
     rep.notes.push("assume: 'peer-down only after peer-up' is not asserted at the TableManager level (the initial PeerUp burst is produced by the BMP client from Global.peers, not by the subscription)".into());
     let mut outcomes: BTreeSet<String> = BTreeSet::new();
     let budget_s: u64 = std::env::var("VERIF_C18_SECS").ok().and_then(|s| s.parse().ok()).unwrap_or(if thorough { 2400 } else { 48 });
     let n_sc = scs.len() as u64;
+    let workers = crate::verif::vx::bfs::workers();
     for (si, sc) in scs.iter().enumerate() {
         let t_sc = std::time::Instant::now();
+        let deadline = t_sc + std::time::Duration::from_secs((budget_s / n_sc).max(1));
         let mut total = 0u64;
         let mut nviol = 0u64;
-        let mut merr: Option<String> = None;
-        let mut seen: BTreeSet<Vec<usize>> = BTreeSet::new();
-        let mut timed_out = false;
         let mut completed_bound: i64 = -1;
-        for b in 0..=bound {
-            // DFS with bound b (re-runs lower bounds' schedules; counted once via `seen`)
-            let mut stack: Vec<Vec<usize>> = vec![vec![]];
-            while let Some(prefix) = stack.pop() {
-                if total >= cap || t_sc.elapsed().as_secs() >= budget_s / n_sc {
-                    timed_out = true;
-                    break;
-                }
-                let (x, out, outcome) = match check_one(sc, &px, &prefix) {
-                    Ok(r) => r,
-                    Err(e) => {
-                        merr = Some(e);
-                        break;
-                    }
-                };
+        let mut timed_out = false;
+        // one execution under the baton scheduler; a failing schedule is believed only if
+        // re-executing exactly the same choices fails identically
+        type R = (Vec<(String, String)>, String, String);
+        let run = |prefix: &[usize]| -> Result<(sched::Execution, R), String> {
+            let (x, out, outcome) = check_one(sc, &px, prefix)?;
+            if !out.is_empty() {
                 let choices: Vec<usize> = x.points.iter().map(|(_, c, _)| *c).collect();
-                let fresh = seen.insert(choices.clone());
-                if fresh {
-                    total += 1;
-                    outcomes.insert(format!("{si}:{outcome}"));
-                    rep.sample(total, || format!("{} :: {} :: events {}", sc.name, sched_str(&x), outcome));
-                    if !out.is_empty() {
-                        // believe a failure only if the same schedule fails identically twice
-                        let again = check_one(sc, &px, &choices);
-                        match again {
-                            Ok((_, out2, outcome2)) if outcome2 == outcome && out2.len() == out.len() => {
-                                nviol += 1;
-                                for (sig, what) in out {
-                                    rep.violation(Violation { sig, what: format!("{what}; schedule: {}", sched_str(&x)), case: format!("{si}#{}#{}", choices.iter().map(|c| c.to_string()).collect::<Vec<_>>().join(","), sc.name) });
-                                }
-                            }
-                            Ok(_) => {
-                                merr = Some(format!("schedule replay was not deterministic for {}", sc.name));
-                                break;
-                            }
-                            Err(e) => {
-                                merr = Some(e);
-                                break;
-                            }
-                        }
-                    }
+                let (_, out2, outcome2) = check_one(sc, &px, &choices)?;
+                if outcome2 != outcome || out2.len() != out.len() {
+                    return Err(format!("schedule replay was not deterministic for {}", sc.name));
                 }
-                for i in prefix.len()..x.points.len() {
-                    let (en, _, _) = &x.points[i];
-                    for alt in 1..en.len() {
-                        // preemptions up to and including this alternative
-                        let mut n = 0usize;
-                        let mut last: Option<usize> = None;
-                        for (j, (e, c, _)) in x.points.iter().enumerate().take(i + 1) {
-                            let ch = if j == i { alt } else { *c };
-                            if let Some(l) = last {
-                                if e.first() == Some(&l) && ch != 0 {
-                                    n += 1;
-                                }
-                            }
-                            last = Some(e[ch]);
-                        }
-                        if n > b {
-                            continue;
-                        }
-                        let mut p: Vec<usize> = x.points[..i].iter().map(|(_, c, _)| *c).collect();
-                        p.push(alt);
-                        stack.push(p);
+            }
+            let ss = sched_str(&x);
+            Ok((x, (out, outcome, ss)))
+        };
+        // iterative preemption bounding: level b explores exactly the schedules with b
+        // preemptions (work list = alternatives deferred by level b-1)
+        let mut work: Vec<Vec<usize>> = vec![vec![]];
+        for b in 0..=bound {
+            let lvl = sched::explore_level::<R>(&run, std::mem::take(&mut work), b, workers, deadline, cap.saturating_sub(total));
+            if let Some(e) = lvl.error {
+                rep.machinery_error = Some(e);
+                return rep;
+            }
+            for (choices, (out, outcome, ss)) in lvl.runs {
+                total += 1;
+                rep.add("schedules_explored", 1);
+                rep.add("schedule_decision_points", choices.len() as u64);
+                outcomes.insert(format!("{si}:{outcome}"));
+                rep.sample(total, || format!("{} :: {} :: events {}", sc.name, ss, outcome));
+                if !out.is_empty() {
+                    nviol += 1;
+                    for (sig, what) in out {
+                        rep.violation(Violation { sig, what: format!("{what}; schedule: {ss}"), case: format!("{si}#{}#{}", choices.iter().map(|c| c.to_string()).collect::<Vec<_>>().join(","), sc.name) });
                     }
                 }
             }
-            if merr.is_some() || timed_out {
+            if lvl.unexplored > 0 {
+                timed_out = true;
                 break;
             }
             completed_bound = b as i64;
-        }
-        if let Some(e) = merr {
-            rep.machinery_error = Some(e);
-            return rep;
+            work = lvl.deferred;
+            if work.is_empty() {
+                // no schedule with more preemptions exists: every interleaving was explored
+                completed_bound = bound as i64;
+                rep.notes.push(format!("{}: no schedule needs more than {b} preemptions: ALL interleavings at hook granularity explored", sc.name));
+                break;
+            }
         }
         if timed_out {
             rep.caps_hit.push(format!("{}: time/execution cap hit; all schedules with <= {} preemptions were completed", sc.name, completed_bound));
             rep.exhaustive = false;
         }
         rep.evaluations += total;
-        rep.notes.push(format!("{}: {} distinct schedules explored, preemption bound completed: {} (target {}), {} violating", sc.name, total, completed_bound, bound, nviol));
+        rep.notes.push(format!("{}: {} distinct schedules explored by {} parallel explorers in {:.1}s, preemption bound completed: {} (target {}), {} violating", sc.name, total, workers, t_sc.elapsed().as_secs_f64(), completed_bound, bound, nviol));
     }
     rep.distinct_nontrivial = outcomes.len() as u64;
     rep.add("distinct_event_sequences", outcomes.len() as u64);
